@@ -99,7 +99,7 @@ pub fn run_app(
         ignore_broken_pipe(writeln!(std::io::stdout(), "{}", msg.trim_end()))?;
         return Ok(0);
     } else if let Call::Help(msg) = call {
-        OutputType::oneshot_write(msg)?;
+        ignore_broken_pipe(OutputType::oneshot_write(msg))?;
         return Ok(0);
     } else if let Call::SubCommand(_, cmd) = &call {
         // Set before creating the Config, which already asks for the calling process
